@@ -158,6 +158,31 @@ func c22etaArity(r *core.R) *c21node {
 	return c21CallN(S("pair"), lam, x) // the function itself is part of the result
 }
 
+// {a, b -> (tri a b L)} where L is a nested lambda that rebinds one of the
+// outer parameters (or none) and uses the others: the eta-reduction test has to
+// look into L with the right set of still-visible names, and must not disturb
+// the outer parameter list while doing so.
+func c22etaShadowingExtra(r *core.R) *c21node {
+	S, I := c21SymN, c21IntN
+	var inner *c21node
+	switch r.Intn(4) {
+	case 0:
+		inner = c21LamN([]string{"a"}, c21CallN(S("add"), S("b"), S("a"))) // rebinds the first parameter
+	case 1:
+		inner = c21LamN([]string{"b"}, c21CallN(S("add"), S("a"), S("b"))) // rebinds the last parameter
+	case 2:
+		inner = c21LamN([]string{"x"}, c21CallN(S("add"), S("x"), S("b"))) // rebinds nothing, uses one
+	default:
+		inner = c21LamN([]string{"a"}, S("a")) // rebinds the first, uses nothing else
+	}
+	lam := c21LamN([]string{"a", "b"}, c21CallN(S("tri"), S("a"), S("b"), inner))
+	if r.Chance(0.3) { // three parameters, the middle one rebound
+		lam = c21LamN([]string{"a", "b", "c"}, c21CallN(S("tri"), S("a"), S("b"), c21LamN([]string{"b"}, c21CallN(S("lin3"), S("a"), S("b"), S("c")))))
+		return c21CallN(S("apply"), c21CallN(S("second"), c21CallN(S("second"), c21CallN(lam, I(r.Range(1, 9)), I(r.Range(1, 9)), I(r.Range(1, 9))))), I(r.Range(1, 9)))
+	}
+	return c21CallN(S("apply"), c21CallN(S("second"), c21CallN(S("second"), c21CallN(lam, I(r.Range(1, 9)), I(r.Range(1, 9))))), I(r.Range(1, 9)))
+}
+
 func init() {
 	core.Register(&core.Monitor{
 		ID:        "C22",
@@ -165,7 +190,7 @@ func init() {
 		Technique: "metamorphic monitor: reference interpreter on p and on api.Simplify(p), plus a free-symbol inclusion check",
 		Rule: "case = one program from the C21 generator extended with strings, query literals and the query builders and/or/keyed/tagged/typed (literal and non-literal arguments), " +
 			"in which 55% of the lambdas get a body (F args) whose arguments are the lambda's parameters in order, permuted, repeated, only a prefix, followed by other arguments, or preceded by one; " +
-			"parameters also shadow global names; 4% of cases call a parameter named and/or/keyed/tagged/typed with literal arguments, 2% wrap a global function of more parameters in a one-parameter lambda. distinct = distinct program text; non-trivial = api.Simplify changed the program",
+			"parameters also shadow global names; 4% of cases call a parameter named and/or/keyed/tagged/typed with literal arguments, 2% wrap a global function of more parameters in a one-parameter lambda, 3% pass a nested lambda that rebinds an outer parameter as an extra argument. distinct = distinct program text; non-trivial = api.Simplify changed the program",
 		Assumptions: []string{
 			"the reference interpreter of c21_lang.go is the language definition",
 			"nested and/or queries are equal to their flattened form (they match the same features)",
@@ -175,7 +200,7 @@ func init() {
 		Required: []string{"simplify_changed_program", "lambda_removed", "lambda_kept_with_eta_shape", "query_folded", "zero_argument_call_removed",
 			"gen_eta_exact", "gen_eta_drops_parameter", "gen_eta_repeats_parameter", "gen_eta_extra_arguments", "gen_eta_permuted",
 			"gen_eta_parameter_not_leading", "gen_eta_parameter_in_later_argument", "gen_eta_function_may_mention_parameter", "gen_eta_extra_argument_fails",
-			"same_value", "same_error", "same_function", "query_builder_with_non_literal_argument", "gen_shadowed_query_builder", "gen_eta_function_arity_differs"},
+			"same_value", "same_error", "same_function", "query_builder_with_non_literal_argument", "gen_shadowed_query_builder", "gen_eta_function_arity_differs", "gen_eta_extra_argument_rebinds_parameter"},
 		Run: func(c *core.Ctx) {
 			var prog *c21node
 			var g *c21gen
@@ -183,6 +208,8 @@ func init() {
 				prog, g = c22shadowedBuilder(c.R), &c21gen{shapes: map[string]int{"shadowed_query_builder": 1}}
 			} else if x < 6 {
 				prog, g = c22etaArity(c.R), &c21gen{shapes: map[string]int{"eta_function_arity_differs": 1}}
+			} else if x < 9 {
+				prog, g = c22etaShadowingExtra(c.R), &c21gen{shapes: map[string]int{"eta_extra_argument_rebinds_parameter": 1}}
 			} else {
 				prog, g = c21generate(c.R, true, 0.55)
 			}
